@@ -13,3 +13,146 @@ package native
 //@ assumed
 //@ pure
 //@ ensures result == attrBaseFee(recv, arg1) && 0 <= result && result <= 1000000000
+
+// ================= C05: NEP-17 token accounting over contract storage =================
+// Abstract state: balAt(d, id, h) is the balance stored for account h of token id as DAO d
+// sees it, supplyAt(d, id) the stored total supply (dao.kv is the abstract storage map). Each
+// operation below is proved to change them by exactly the stated amounts and to touch no
+// other storage key (its `modifies` clause is a proof obligation).
+//@ prop C05
+//@ import state github.com/nspcc-dev/neo-go/pkg/core/state
+//@ import dao github.com/nspcc-dev/neo-go/pkg/core/dao
+//@ import interop github.com/nspcc-dev/neo-go/pkg/core/interop
+//@ import util github.com/nspcc-dev/neo-go/pkg/util
+//@ import bigint github.com/nspcc-dev/neo-go/pkg/encoding/bigint
+//@ import big math/big
+//@ import runtime github.com/nspcc-dev/neo-go/pkg/core/interop/runtime
+//@ pkg-invariant len(totalSupplyKey) == 1 && totalSupplyKey[0] == 11
+
+//@ spec acctKeyOf(h util.Uint160) seq = cat("\x14", h)
+//@ spec balOf(si state.StorageItem) int = ite(si == nil, 0, state.decBal(si))
+//@ spec balAt(d *dao.Simple, id int32, h util.Uint160) int = ite(has(dao.kv(d, id), acctKeyOf(h)), dao.kvBal(d, id)[acctKeyOf(h)], 0)
+//@ spec supplyAt(d *dao.Simple, id int32) int = ite(has(dao.kv(d, id), "\x0b"), dao.kv(d, id)["\x0b"], 0)
+
+//@ func makeUint160Key
+//@ ensures fresh(result) && len(result) == 21 && result[0] == prefix && forall(i, 0, 20, result[1+i] == h[i])
+//@ func makeAccountKey
+//@ ensures fresh(result) && string(result) == acctKeyOf(h)
+
+// What a token's balance-update function (GAS.increaseBalance, NEO.increaseBalance) must do
+// with the stored item it is handed: add the amount, never go negative, fail without a trace.
+//@ funcfield nep17TokenNative.incBalance(ic, h, si, amount, checkBal)
+//@ requires[nopanic] si != nil && amount != nil
+//@ modifies *si
+//@ ensures[delta] result1 == nil && amount.v != 0 ==> balOf(*si) == old(balOf(*si)) + amount.v
+//@ ensures[nonneg] result1 == nil && old(balOf(*si)) >= 0 ==> balOf(*si) >= 0
+//@ ensures[zero] result1 == nil && amount.v == 0 ==> same(*si, old(*si))
+//@ ensures[valid] result1 == nil && amount.v != 0 ==> *si == nil || state.validBal(*si)
+//@ ensures[err] result1 != nil ==> same(*si, old(*si))
+//@ ensures[required] result1 == nil && amount.v == 0 && checkBal != nil ==> old(balOf(*si)) >= checkBal.v
+//@ ensures[noerr] amount.v > 0 && checkBal == nil && (old(*si) == nil || state.validBal(old(*si))) ==> result1 == nil
+
+//@ func (*GAS).increaseBalance
+//@ implements nep17TokenNative.incBalance
+//@ modifies *si
+
+//@ func (*nep17TokenNative).getTotalSupply
+//@ requires c != nil && d != nil
+//@ ensures[val] result1 != nil && fresh(result1) && result1.v == supplyAt(d, c.ID)
+//@ func (*nep17TokenNative).saveTotalSupply
+//@ requires c != nil && d != nil && supply != nil
+//@ modifies dao.kv(d, c.ID)["\x0b"], dao.kvBal(d, c.ID)["\x0b"], dao.kvOk(d, c.ID)["\x0b"]
+//@ ensures[val] supplyAt(d, c.ID) == supply.v
+
+// Mint/burn: the account and the total supply move together.
+//@ func (*nep17TokenNative).addTokens
+//@ may-panic
+//@ requires c != nil && c.incBalance != nil && ic != nil && ic.DAO != nil && amount != nil
+//@ modifies dao.kv(ic.DAO, c.ID)[acctKeyOf(h)], dao.kvBal(ic.DAO, c.ID)[acctKeyOf(h)], dao.kvOk(ic.DAO, c.ID)[acctKeyOf(h)], dao.kv(ic.DAO, c.ID)["\x0b"], dao.kvBal(ic.DAO, c.ID)["\x0b"], dao.kvOk(ic.DAO, c.ID)["\x0b"]
+//@ ensures[bal] amount.v != 0 ==> balAt(ic.DAO, c.ID, h) == old(balAt(ic.DAO, c.ID, h)) + amount.v
+//@ ensures[supply] amount.v != 0 ==> supplyAt(ic.DAO, c.ID) == old(supplyAt(ic.DAO, c.ID)) + amount.v
+//@ ensures[nonneg] amount.v != 0 && old(balAt(ic.DAO, c.ID, h)) >= 0 ==> balAt(ic.DAO, c.ID, h) >= 0
+//@ ensures[noop] amount.v == 0 ==> unchanged(dao.kv(ic.DAO, c.ID)) && unchanged(dao.kvBal(ic.DAO, c.ID))
+
+// Argument conversion helpers read stack items only.
+//@ func toUint160
+//@ assumed
+//@ pure
+//@ func toBigInt
+//@ assumed
+//@ pure
+//@ ensures result != nil
+
+// Balance update of one account: on success the stored balance moves by exactly `amount`, on
+// failure it stays what it was; nothing but this account's record is written.
+//@ func (*nep17TokenNative).updateAccBalance
+//@ requires c != nil && c.incBalance != nil && ic != nil && ic.DAO != nil && amount != nil
+//@ modifies dao.kv(ic.DAO, c.ID)[acctKeyOf(acc)], dao.kvBal(ic.DAO, c.ID)[acctKeyOf(acc)], dao.kvOk(ic.DAO, c.ID)[acctKeyOf(acc)]
+//@ ensures[delta] result1 == nil ==> balAt(ic.DAO, c.ID, acc) == old(balAt(ic.DAO, c.ID, acc)) + amount.v
+//@ ensures[fail] result1 != nil ==> balAt(ic.DAO, c.ID, acc) == old(balAt(ic.DAO, c.ID, acc))
+//@ ensures[nonneg] result1 == nil && old(balAt(ic.DAO, c.ID, acc)) >= 0 ==> balAt(ic.DAO, c.ID, acc) >= 0
+//@ ensures[required] result1 == nil && amount.v == 0 && requiredBalance != nil && requiredBalance.v > 0 ==> old(balAt(ic.DAO, c.ID, acc)) >= requiredBalance.v
+//@ ensures[noerr] amount.v > 0 && requiredBalance == nil && old(has(dao.kv(ic.DAO, c.ID), acctKeyOf(acc)) ==> dao.kvOk(ic.DAO, c.ID)[acctKeyOf(acc)]) ==> result1 == nil
+//@ ensures[valid] has(dao.kv(ic.DAO, c.ID), acctKeyOf(acc)) && old(has(dao.kv(ic.DAO, c.ID), acctKeyOf(acc)) ==> dao.kvOk(ic.DAO, c.ID)[acctKeyOf(acc)]) ==> dao.kvOk(ic.DAO, c.ID)[acctKeyOf(acc)]
+
+// Transfer: by the time the Transfer event is emitted (postTransfer) the sender has been debited
+// and the receiver credited by exactly the amount of the event (nothing moves for a self- or
+// zero-transfer), the supply is untouched; every path that does not reach postTransfer leaves
+// all balances as they were; given that stored records are well-formed, crediting the receiver
+// after the sender was debited cannot fail (that branch is shown unreachable: `uncovered 1`).
+//@ func (*nep17TokenNative).transferDeferrable
+//@ may-panic
+//@ opt callbacks pure
+//@ opt frame off
+//@ requires c != nil && c.incBalance != nil && ic != nil && ic.DAO != nil && ic.VM != nil && len(args) >= 4 && runtime.wfSigners(ic)
+//@ requires[stored] forallkeys(dao.kv(ic.DAO, c.ID), k, has(dao.kv(ic.DAO, c.ID), k) ==> dao.kvOk(ic.DAO, c.ID)[k])
+//@ call postTransfer requires[args] arg2 == &from && arg3 == &to && arg4 == amount && arg6 == true
+//@ call postTransfer requires[supply] supplyAt(ic.DAO, c.ID) == old(supplyAt(ic.DAO, c.ID))
+//@ call postTransfer requires[moved] from != to && amount.v != 0 ==> balAt(ic.DAO, c.ID, from) == old(balAt(ic.DAO, c.ID, from)) - amount.v && balAt(ic.DAO, c.ID, to) == old(balAt(ic.DAO, c.ID, to)) + amount.v
+//@ call postTransfer requires[empty] from == to || amount.v == 0 ==> unchanged(dao.kvBal(ic.DAO, c.ID)) || balAt(ic.DAO, c.ID, from) == old(balAt(ic.DAO, c.ID, from))
+//@ call postTransfer requires[others] forallkeys(dao.kvBal(ic.DAO, c.ID), k, k == acctKeyOf(from) || k == acctKeyOf(to) || ite(has(dao.kv(ic.DAO, c.ID), k), dao.kvBal(ic.DAO, c.ID)[k], 0) == old(ite(has(dao.kv(ic.DAO, c.ID), k), dao.kvBal(ic.DAO, c.ID)[k], 0)))
+//@ call postTransfer requires[funds] old(balAt(ic.DAO, c.ID, from)) >= 0 ==> old(balAt(ic.DAO, c.ID, from)) >= amount.v
+//@ ensures[failed] ncalls(postTransfer) == 0 ==> forallkeys(dao.kvBal(ic.DAO, c.ID), k, ite(has(dao.kv(ic.DAO, c.ID), k), dao.kvBal(ic.DAO, c.ID)[k], 0) == old(ite(has(dao.kv(ic.DAO, c.ID), k), dao.kvBal(ic.DAO, c.ID)[k], 0)))
+//@ opt uncovered 1
+
+// Burn and mint: at the moment the Transfer event is emitted the account and the supply have
+// moved by exactly the amount of the event; a zero amount does nothing at all.
+//@ func (*nep17TokenNative).Burn
+//@ may-panic
+//@ opt frame off
+//@ opt callbacks pure
+//@ requires c != nil && c.incBalance != nil && ic != nil && ic.DAO != nil && amount != nil
+//@ call postTransfer requires[args] arg2 == &h && arg3 == nil && arg4 == amount && amount.v == old(amount.v) && arg6 == false
+//@ call postTransfer requires[burned] balAt(ic.DAO, c.ID, h) == old(balAt(ic.DAO, c.ID, h)) - amount.v && supplyAt(ic.DAO, c.ID) == old(supplyAt(ic.DAO, c.ID)) - amount.v
+//@ call postTransfer requires[nonneg] old(balAt(ic.DAO, c.ID, h)) >= 0 ==> balAt(ic.DAO, c.ID, h) >= 0
+//@ ensures[zero] old(amount.v) == 0 ==> ncalls(postTransfer) == 0 && unchanged(dao.kv(ic.DAO, c.ID)) && unchanged(dao.kvBal(ic.DAO, c.ID))
+//@ ensures[once] old(amount.v) != 0 ==> ncalls(postTransfer) == 1
+
+//@ func (*nep17TokenNative).MintDeferrable
+//@ may-panic
+//@ opt frame off
+//@ opt callbacks pure
+//@ requires c != nil && c.incBalance != nil && ic != nil && ic.DAO != nil && amount != nil
+//@ call postTransfer requires[args] arg2 == nil && arg3 == &h && arg4 == amount
+//@ call postTransfer requires[minted] balAt(ic.DAO, c.ID, h) == old(balAt(ic.DAO, c.ID, h)) + amount.v && supplyAt(ic.DAO, c.ID) == old(supplyAt(ic.DAO, c.ID)) + amount.v
+//@ ensures[zero] amount.v == 0 ==> ncalls(postTransfer) == 0 && unchanged(dao.kv(ic.DAO, c.ID)) && unchanged(dao.kvBal(ic.DAO, c.ID))
+//@ ensures[once] amount.v != 0 ==> ncalls(postTransfer) == 1
+
+// The event: postTransfer emits exactly one Transfer notification, for the parties and the
+// amount it was given, before anything else it does.
+//@ func (*nep17TokenNative).postTransfer
+//@ may-panic
+//@ opt frame off
+//@ opt callbacks pure
+//@ requires c != nil && ic != nil
+//@ call emitTransfer requires[args] arg2 == from && arg3 == to && arg4 == amount && ncalls(emitTransfer) == 0 && ncalls(GetContract) == 0 && ncalls(CallFromNative) == 0
+//@ ensures[emitted] ncalls(emitTransfer) == 1
+
+//@ func (*nep17TokenNative).emitTransfer
+//@ may-panic
+//@ opt frame off
+//@ requires c != nil && ic != nil
+//@ call addrToStackItem requires[parties] (ncalls(addrToStackItem) == 0 ==> arg0 == from) && (ncalls(addrToStackItem) == 1 ==> arg0 == to)
+//@ call NewBigInteger requires[amount] arg0 == amount
+//@ call AddNotification requires[event] arg1 == old(c.Hash) && string(arg2) == "Transfer"
+//@ ensures[one] ncalls(AddNotification) == 1 && ncalls(addrToStackItem) == 2
